@@ -9,7 +9,7 @@ FRESH_KINDS = ['list', 'dict', 'obj'] + ODD_EQ_KINDS
 
 class Gen:
     def __init__(self, rng, names=None, nmaps=None, nhandles=None, alias_p=0.12, odd_p=0.5, fail_p=0.15,
-                 eq_p=0.3, split_p=0.25):
+                 eq_p=0.3, split_p=0.25, setter_p=0.0, loader_p=0.0):
         self.rng = rng
         self.lines = []
         if names is None:
@@ -38,11 +38,21 @@ class Gen:
         # a key delimiter other than '/' (subclass attribute or instance attribute), and then names containing '/'
         self.split = (rng.choice('|;'), rng.choice(['sub', 'inst'])) if rng.random() < split_p else None
         self.slash_names = rng.sample(['t~g.png', 'a~b', '~x'], rng.randint(1, 2)) if self.split else []
+        # user subclasses whose `parent` / `key` are properties: the setters run scripted code that uses the tree
+        # again; loaders that use the tree while they load
+        self.setters = rng.random() < setter_p and not self.split
+        self.loaders = rng.random() < loader_p and not self.split
+        self.prop = set()
+        if self.setters:
+            cand = self.handles + self.maps[1:]
+            self.prop = set(rng.sample(cand, min(len(cand), rng.randint(1, 3))))
         for m in self.maps:
             opts = ''
             if self.split:
                 opts += f' split={self.split[0]}{self.split[1]}'
             opts += self.value_opts(maps=True)
+            if m in self.prop:
+                opts += ' prop=1'
             self.lines.append(f'newmap {m}{opts}')
         # at least one loaded value with odd equality (== True for everything, raising __eq__/__bool__,
         # equal-but-not-identical twins, duck-typed equality) in most scenarios
@@ -60,7 +70,77 @@ class Gen:
             if rng.random() < fail_p or (i == odd and rng.random() < 2 * fail_p):
                 fail = ' fail=' + rng.choice(['1', '1', '1,2', '2', '1,3', '2,3', '3'])
             self.fails[h] = fail
-            self.lines.append(f'newhandle {h} {kind}{fail}{self.value_opts()}')
+            prop = ' prop=1' if h in self.prop else ''
+            self.lines.append(f'newhandle {h} {kind}{fail}{self.value_opts()}{prop}')
+        self.script_user_code()
+
+    def script_user_code(self):
+        """`react` lines: what the k-th run of a property setter / of a loader does (operations of the same kind
+        as the top-level ones, executed silently).  Handles reserved for scripts (`spares`) are never used by
+        top-level assignments, so a script's assignment is no aliasing."""
+        rng = self.rng
+        if not (self.setters or self.loaders):
+            return
+        n0 = len(self.handles)
+        self.spares = [f'h{n0 + i}' for i in range(rng.randint(1, 4))]
+        for h in self.spares:
+            self.lines.append(f'newhandle {h} {rng.choice(["list", "obj", "dict"])}')
+        spares = list(self.spares)
+        dirs = ['unloaded', 'notes']
+
+        def read(root):
+            k = rng.choice(['get', 'getitem', 'chain'])
+            return f'{k} {root} {self.tok([rng.choice(self.names) for _ in range(rng.randint(1, 3))])}'
+
+        def script(own, loader):
+            ops = []
+            for _ in range(rng.randint(1, 3)):
+                root = self.maps[0] if rng.random() < 0.7 else rng.choice(self.maps)
+                r = rng.random()
+                if r < 0.35 and spares:
+                    # file a note in a sub-map of the map (created on the way if need be)
+                    ops.append(f'set {root} {self.tok([rng.choice(dirs), rng.choice(self.names)])} {spares.pop()}')
+                elif r < 0.42 and spares:
+                    ops.append(f'set {root} {self.tok([rng.choice(self.names)])} {spares.pop()}')
+                elif r < 0.65:
+                    ops.append(read(root))
+                elif r < 0.72:
+                    ops.append(f'clear {rng.choice(self.maps)}')
+                elif r < 0.80:
+                    ops.append(f'snap {root}')
+                elif loader and r < 0.93:
+                    ops.append(f'hclear {own if rng.random() < 0.6 else rng.choice(self.handles)}')
+                elif loader:
+                    others = [h for h in self.handles if h != own]
+                    if others:
+                        ops.append(f'call {rng.choice(others)}')
+                else:
+                    ops.append(read(root))
+            return ' ; '.join(ops)
+        self.focus = None
+        if self.setters and spares and rng.random() < 0.6:
+            # the classic: an object that, when it is detached (second assignment of `parent`: the first one was
+            # the attachment), files a note in a sub-map of the map it is being removed from
+            self.focus = sorted(self.prop)[0]
+            self.lines.append(f'react parent {self.focus} 1 : set {self.maps[0]} '
+                              f'{self.tok([rng.choice(dirs), rng.choice(self.names)])} {spares.pop()}')
+        if self.setters:
+            for x in sorted(self.prop):
+                for hook in ('parent', 'key'):
+                    for k in range(3):
+                        if x == self.focus and hook == 'parent' and k == 1:
+                            continue
+                        if rng.random() < (0.6 if hook == 'parent' else 0.25):
+                            sc = script(x, False)
+                            if sc:
+                                self.lines.append(f'react {hook} {x} {k} : {sc}')
+        if self.loaders:
+            for h in rng.sample(self.handles, min(len(self.handles), rng.randint(1, 3))):
+                for k in range(2):
+                    if rng.random() < 0.7:
+                        sc = script(h, True)
+                        if sc:
+                            self.lines.append(f'react load {h} {k} : {sc}')
 
     def value_opts(self, maps=False):
         rng = self.rng
@@ -213,7 +293,14 @@ class Gen:
 
 
 def gen_c11(rng, fresh_only=False):
-    g = Gen(rng, alias_p=0.0 if fresh_only else 0.12)
+    g = Gen(rng, alias_p=0.0 if fresh_only else 0.12, setter_p=0.2, loader_p=0.05)
+    focus = getattr(g, 'focus', None)
+    if focus is not None:
+        # the object with the scripted setter is a direct child of the map that will be cleared
+        (g.unused_h if focus in g.unused_h else g.unused_m if focus in g.unused_m else []).remove(focus) \
+            if (focus in g.unused_h or focus in g.unused_m) else None
+        g.op_set(root=g.maps[0], p=[rng.choice(g.names)], v=focus)
+        g.observe()
     for _ in range(rng.randint(1, 22)):
         r = rng.random()
         if r < 0.07:
@@ -242,12 +329,14 @@ def gen_c11(rng, fresh_only=False):
             g.op_query()
         else:
             g.op_handle(('hclear', 'call'))
+    if focus is not None and rng.random() < 0.8:
+        g.emit(f'clear {g.maps[0]}')
     g.observe()
     return g.lines
 
 
 def gen_c12(rng):
-    g = Gen(rng, nhandles=rng.randint(1, 6), alias_p=0.1, odd_p=0.85, fail_p=0.3)
+    g = Gen(rng, nhandles=rng.randint(1, 6), alias_p=0.1, odd_p=0.85, fail_p=0.3, loader_p=0.3, setter_p=0.03)
     for _ in range(rng.randint(1, 6)):
         g.op_set(v=g.value(map_p=0.1))
     if rng.random() < 0.4:
@@ -308,7 +397,7 @@ def gen_c17(rng):
     k = rng.choice([2, 3, 3, 4])
     r = rng.random()
     pool = IDENT if r < 0.35 else IDENT + OTHER if r < 0.8 else IDENT + OTHER + MANGLED
-    g = Gen(rng, names=rng.sample(pool, k), alias_p=0.05, odd_p=0.7)
+    g = Gen(rng, names=rng.sample(pool, k), alias_p=0.05, odd_p=0.7, loader_p=0.25)
     for _ in range(rng.randint(1, 9)):
         r = rng.random()
         if r < 0.8:
